@@ -7,29 +7,12 @@
    in exact rationals (Rat).  The THB basis is defined by the textbook truncation: when a function is
    expressed on level l+1, the components along level-(l+1) B-splines whose support lies in the
    level-(l+1) region are dropped.                                                              *)
-EXTENDS HSpace, Rat
+EXTENDS HSpace, Boehm
 
 M == MaxLev - 1
 Knots(l, a) ==           \* open knot vector of level l, axis a, as a sequence of integers
   LET p == PP[a]  n == NC(l, a)  h == Pow2(M - l) IN
   [i \in 1..(n + 2 * p + 1) |-> IF i <= p + 1 THEN 0 ELSE IF i > n + p THEN n * h ELSE (i - p - 1) * h]
-
-\* Boehm: insert t (kv[k] <= t < kv[k+1]) into kv of degree p: (n+1) x n matrix
-InsMat(kv, p, t) ==
-  LET n == Len(kv) - p - 1
-      k == CHOOSE i \in 1..(Len(kv) - 1) : kv[i] <= t /\ t < kv[i + 1]
-      alpha(i) == IF i <= k - p THEN One ELSE IF i >= k + 1 THEN Zero
-                  ELSE Q(t - kv[i], kv[i + p] - kv[i])
-  IN [i \in 1..(n + 1) |-> [j \in 1..n |->
-        IF j = i THEN alpha(i) ELSE IF j = i - 1 THEN Sub(One, alpha(i)) ELSE Zero]]
-InsKnot(kv, t) ==
-  LET k == CHOOSE i \in 1..(Len(kv) - 1) : kv[i] <= t /\ t < kv[i + 1] IN
-  SubSeq(kv, 1, k) \o <<t>> \o SubSeq(kv, k + 1, Len(kv))
-
-\* sparse product of an insertion matrix (two entries per row) with a dense matrix
-InsApply(A, B) == [i \in 1..Len(A) |-> [j \in 1..Len(B[1]) |->
-     Add(IF i <= Len(B) THEN Mul(A[i][i], B[i][j]) ELSE Zero,
-         IF i >= 2 THEN Mul(A[i][i - 1], B[i - 1][j]) ELSE Zero)]]
 
 TwoScale1(l, a) ==       \* B^l_j = SUM_i T[i][j] B^{l+1}_i   (rows: fine, 1-indexed)
   LET p == PP[a]  kv0 == Knots(l, a)  h == Pow2(M - l)
@@ -85,6 +68,11 @@ BasisClauses(H, T) ==
   /\ Rank(H) = nc                                                                        \* HB linearly independent
   /\ Rank(T) = nc
   /\ Rank(H \o T) = nc                                                                   \* same space
+
+EmitTS ==        \* once, in the initial state: the exact two-scale matrices (rows fine, columns coarse)
+  (DoEmit /\ hist = <<>>) =>
+     Emit("TS", [ts |-> [l \in 1..M |-> [a \in Axes |-> TS[l - 1][a]]],
+                 nf |-> [l \in 1..MaxLev |-> [a \in Axes |-> NF(l - 1, a)]]])
 
 BasisOK ==
   LET H == Repr(FALSE)  T == Repr(TRUE) IN
